@@ -922,10 +922,13 @@ struct Tcp
 		if (f.snaplen < 65535) fail("pcap.header", "snaplen smaller than the largest packet");
 		// what the first-hop probes saw being put on the wire, in transmission order
 		std::vector<PktRec const*> wire;
+		std::map<PktRec const*, int64_t> true_src; // the address of the node whose first hop saw the packet (a retransmission
+		                                            // that came back through a NAT carries the rewritten address in its 'from')
 		for (auto const& ci : net.infos)
 			if (ci.label.rfind("out.", 0) == 0 && !ci.probes.empty())
 				for (auto const& r : ci.probes[0]->log)
-					if ((r.type == 5 && (r.overhead == 40 || r.overhead == 28)) || (r.type == 4 && r.overhead == 40)) wire.push_back(&r);
+					if ((r.type == 5 && (r.overhead == 40 || r.overhead == 28)) || (r.type == 4 && r.overhead == 40))
+					{ wire.push_back(&r); true_src[&r] = addr_key(ip::make_address(ci.label.substr(4))); }
 		std::sort(wire.begin(), wire.end(), [](PktRec const* x, PktRec const* y) { return x->gseq < y->gseq; });
 		ctx.hit("pcap_records", f.records.size());
 		if (f.records.size() != wire.size())
@@ -949,7 +952,7 @@ struct Tcp
 				+ " do not match headers + " + std::to_string(w.payload) + " payload bytes"); return; }
 			if (r.protocol != (is_udp ? 17 : 6)) { fail("pcap.protocol", who + ": wrong IP protocol or records out of transmission order"); return; }
 			if (r.payload_hash != w.phash) { fail("pcap.payload", who + ": payload bytes differ from what was sent (or records out of transmission order)"); return; }
-			int64_t const src = w.from_addr;
+			int64_t const src = true_src[&w];
 			int64_t const dst = src == kA ? kB : kA;
 			if (int64_t(r.src_ip) != src || int64_t(r.dst_ip) != dst) { fail("pcap.address", who + ": IP source/destination address is not the true one"); return; }
 			if (r.src_port != w.from_port) { fail("pcap.port", who + ": source port " + std::to_string(r.src_port) + ", sent from " + std::to_string(w.from_port)); return; }
@@ -1058,6 +1061,20 @@ struct TcpEngine : Engine
 				p.cfg[std::string(pre) + "0fid"] = pre[0] == 'a' ? 0 : 1;
 				p.cfg[std::string(pre) + "0bw"] = 0; p.cfg[std::string(pre) + "0lat"] = 0; p.cfg[std::string(pre) + "0cap"] = 0;
 				p.cfg[std::string(pre) + "n"] = std::min<int64_t>(4, n + 1);
+			}
+		}
+		// captures must name the true source even when the sender sits behind a NAT and its segments are dropped (and
+		// handed back for retransmission) by a queue beyond the NAT
+		if (c19 && rng.chance(0.3))
+		{
+			int64_t const n = p.c("aon");
+			if (n < 4)
+			{
+				std::string const q = "ao" + std::to_string(n);
+				p.cfg[q + "kind"] = 1; p.cfg[q + "nat"] = 0x0a630001; p.cfg[q + "bw"] = 0; p.cfg[q + "lat"] = 0; p.cfg[q + "cap"] = 0;
+				p.cfg["aon"] = n + 1;
+				if (p.c("abn") == 0) { p.cfg["abn"] = 1; p.cfg["ab0bw"] = rng.pick(std::vector<int64_t>{100000, 1000000}); p.cfg["ab0lat"] = 2000000; }
+				p.cfg["ab0cap"] = rng.range(mtu + 40, (mtu + 40) * 3);
 			}
 		}
 		// traffic
